@@ -99,6 +99,9 @@ func genPlain(rng *rand.Rand, kind string) *Spec {
 		sp.Fault = genFault(rng, n)
 	case v < 45:
 		sp.Stop = &Stop{How: []string{"stop", "close", "cancel"}[rng.IntN(3)], AfterCalls: rng.IntN((sp.nItems()+2)*len(sp.Calls) + 1)}
+		if n >= 2 && rng.IntN(3) == 0 {
+			sp.Stop = &Stop{How: sp.Stop.How, InFetch: true, InFetchPage: 1 + rng.IntN(n-1)}
+		}
 	}
 	return sp
 }
@@ -213,6 +216,13 @@ func withEvents(base *Spec, out *[]*Spec) {
 		for _, how := range []string{"stop", "close", "cancel"} {
 			c := clone(base)
 			c.Stop = &Stop{How: how, AfterCalls: k}
+			*out = append(*out, c)
+		}
+	}
+	for pg := 1; pg < base.nPages() && pg <= 4; pg++ {
+		for _, how := range []string{"stop", "close", "cancel"} {
+			c := clone(base)
+			c.Stop = &Stop{How: how, InFetch: true, InFetchPage: pg}
 			*out = append(*out, c)
 		}
 	}
